@@ -215,6 +215,8 @@ func runC17(r *Runner, g *Gen, tier string) string {
 		r.Do(L(A("latereg"), A(k)), true, "latereg")
 	}
 	r.Do(L(A("regintern")), true, "regintern")
+	r.Do(L(A("regselfhist")), true, "regselfhist")
+	r.Do(L(A("pkgreg")), true, "pkgreg")
 	n := scale(tier, 1200, 150000)
 	for i := 0; i < n; i++ {
 		items := []*Sexp{A("world")}
